@@ -153,10 +153,88 @@ func (fr *Frame) oblName(kind, label string) string {
 }
 
 func (fr *Frame) addObl(kind, label string, goal Term, text string, pos string, props []string, canary bool) *Obligation {
-	o := &Obligation{Name: fr.oblName(kind, label), Func: fr.objPfx, Kind: kind, Props: props, Goal: goal, Text: text, Pos: pos, Canary: canary}
+	name := fr.oblName(kind, label)
+	// split conjunctive goals: (=> g (and a b ...)) becomes one obligation per conjunct (smaller, more stable queries)
+	if !canary {
+		guard, body := splitImpl(goal)
+		parts := splitConj(body)
+		if len(parts) > 1 && len(parts) <= 16 {
+			var last *Obligation
+			for k, p := range parts {
+				o := &Obligation{Name: fmt.Sprintf("%s/%d", name, k), Func: fr.objPfx, Kind: kind, Props: props, Goal: implies(guard, p), Text: text, Pos: pos}
+				o.ModelVars = fr.v.modelVarsFor(fr)
+				fr.ctx.oblige(o)
+				last = o
+			}
+			return last
+		}
+	}
+	o := &Obligation{Name: name, Func: fr.objPfx, Kind: kind, Props: props, Goal: goal, Text: text, Pos: pos, Canary: canary}
 	o.ModelVars = fr.v.modelVarsFor(fr)
 	fr.ctx.oblige(o)
 	return o
+}
+
+// sexprArgs splits "(op a b c)" into op and top-level arguments; ok=false if t is not an application.
+func sexprArgs(t Term) (op string, args []Term, ok bool) {
+	if len(t) < 2 || t[0] != '(' || t[len(t)-1] != ')' {
+		return "", nil, false
+	}
+	body := t[1 : len(t)-1]
+	depth := 0
+	inq := false
+	start := 0
+	var toks []string
+	for i := 0; i < len(body); i++ {
+		ch := body[i]
+		if ch == '|' {
+			inq = !inq
+		}
+		if inq {
+			continue
+		}
+		switch ch {
+		case '(':
+			depth++
+		case ')':
+			depth--
+		case ' ':
+			if depth == 0 {
+				if i > start {
+					toks = append(toks, body[start:i])
+				}
+				start = i + 1
+			}
+		}
+	}
+	if start < len(body) {
+		toks = append(toks, body[start:])
+	}
+	if len(toks) == 0 || depth != 0 {
+		return "", nil, false
+	}
+	return toks[0], toks[1:], true
+}
+
+func splitImpl(t Term) (guard, body Term) {
+	op, args, ok := sexprArgs(t)
+	if ok && op == "=>" && len(args) == 2 {
+		g2, b2 := splitImpl(args[1])
+		return and(args[0], g2), b2
+	}
+	return "true", t
+}
+
+func splitConj(t Term) []Term {
+	op, args, ok := sexprArgs(t)
+	if ok && op == "and" {
+		var out []Term
+		for _, a := range args {
+			out = append(out, splitConj(a)...)
+		}
+		return out
+	}
+	return []Term{t}
 }
 
 func (fr *Frame) safetyProps() []string {
@@ -540,7 +618,7 @@ func (fr *Frame) loopHead(li *loopInfo, st *State, reach Term) *State {
 		fr.addObl("loop-frame-entry", fmt.Sprintf("loop %d;%s", li.ordinal, t.comp), implies(reach, t.term), "frame of "+t.comp+" holds at loop entry", "", fr.props, false)
 	}
 	hs := havocState(fr.ctx, st, fmt.Sprintf("loop %d", li.ordinal), func(comp string) havocSpec {
-		if mods.all || mods.has(comp) {
+		if mods.all || mods.has(strings.TrimPrefix(comp, "N|")) {
 			return havocSpec{mode: hvAll}
 		}
 		return havocSpec{mode: hvNone}
@@ -584,6 +662,9 @@ func (fr *Frame) frameTerms(st *State, mods *modSet) []frameTerm {
 	}
 	var out []frameTerm
 	for _, comp := range mods.sorted() {
+		if strings.HasPrefix(comp, "N|") {
+			continue
+		}
 		srt := mods.comps[comp]
 		t := root.frameTermFor(comp, srt, st)
 		if t != "" {
@@ -610,7 +691,7 @@ func (root *Frame) frameTermFor(comp, srt string, st *State) Term {
 		return ""
 	}
 	refs := root.modifiedRefs(comp)
-	conds := []Term{lt("0", "r!"), lt("r!", root.entrySt.nxt)}
+	var conds []Term
 	for _, r := range refs {
 		conds = append(conds, not(eq("r!", r)))
 	}
